@@ -128,10 +128,16 @@ def check(scn):
     elif kind == "dup":
         base = rng.randn(max(2, n // 3), m)
         data = base[rng.randint(0, len(base), n)]
+    elif kind == "narrow":
+        # narrow integer dtypes with values in the upper half of their range: min + max does not fit the dtype, the
+        # spread does; the tree must be the one of the same points stored as floats
+        dt, lo, hi = [(np.int16, 20000, 32767), (np.uint8, 140, 255), (np.int8, 70, 127), (np.uint16, 40000, 65535)][seed % 4]
+        data = rng.randint(lo, hi + 1, (n, m)).astype(dt)
     else:
         data = rng.randn(n, m)
     part = KDQTreePartitioner(count_ubound=ub, cutpoint_proportion_lbound=scn.get("lb", 2e-10))
     part.build(data)
+    data = data.astype(float)
     if part.node is None:
         return "build returned no tree"
     f1 = rng.randn(n, m) if kind == "cont" else rng.randint(-1, 6, (n, m)).astype(float)
@@ -190,14 +196,14 @@ def check(scn):
 def run(tier, seed, repo, focus=None):
     quick = tier == "quick"
     res = Result("C08", "bounded/b_C08.py",
-                 "KDQTreePartitioner on point sets (integer grid with duplicates, duplicated rows, continuous) x 1..3 "
+                 "KDQTreePartitioner on point sets (integer grid with duplicates, duplicated rows, continuous, narrow integer dtypes near the top of their range) x 1..3 "
                  "dimensions x count_ubound in {1,2,3,5} x fill sequences under three ids with and without reset: tree "
                  "shape (axis cycling, midpoints, no split of small nodes, children sum, leaves list), unique-leaf "
                  "assignment on fill, +0.5 distribution sums to 1, KL >= 0 and 0 for equal counts, plotly frame lists "
                  "every node once with parent/depth/counts/KSS; non-trivial = the tree has an internal node",
                  {"seeds": 4 if quick else 25})
     known = load_known()
-    for kind in ("grid", "dup", "cont", "blocky"):
+    for kind in ("grid", "dup", "cont", "blocky", "narrow"):
         for m in (1, 2, 3):
             for ub in (1, 2, 3, 5):
                 for n in (1, 4, 9, 20):
@@ -215,7 +221,7 @@ def run(tier, seed, repo, focus=None):
     prng = np.random.RandomState(seed + 808)
     for r in range(12 if quick else 150):
         scn = {"seed": seed + r, "n": int(prng.choice([30, 60, 150, 400])), "m": int(prng.randint(1, 5)), "ub": int(prng.randint(1, 30)),
-               "kind": str(prng.choice(["grid", "dup", "cont", "blocky"])), "lb": float(prng.choice([2e-10, 0.01, 0.1, 0.25, 0.5]))}
+               "kind": str(prng.choice(["grid", "dup", "cont", "blocky", "narrow"])), "lb": float(prng.choice([2e-10, 0.01, 0.1, 0.25, 0.5]))}
         try:
             msg = check(scn)
         except Exception as e:
